@@ -294,8 +294,14 @@ def _r084(ck, prog, cfg):
         ck.check(sends[0][0] not in ars.reach([db]), "R08.4", "checkpoint-before-deltas" + _tag(cfg),
                  "checkpoint entries are installed after the deltas (plain insert would overwrite merged state)",
                  ars.where(sends[0][1]["ln"]), detail="checkpoint loop precedes deltas")
-        # the checkpoint loop has no filtering exit: the send is inside a loop whose only exit is iterator exhaustion — check
-        # that no `continue`-like edge skips the send: every path from loop head's Some-edge reaches the send
+        # the checkpoint loop has no filtering exit: every iteration over the recovered entries reaches the send
+        heads = lib2.loop_heads(ars)
+        sb_ = sends[0][0]
+        mine = [h for h, (none_t, some_t, nb) in heads.items() if sb_ == some_t or sb_ in ars.reach([some_t], avoid=[h])]
+        skip = lib2.iteration_skips(ars, mine[0], {sb_}) if mine else [sb_]
+        ck.check(bool(mine) and skip is None, "R08.4", "every-checkpoint-entry-forwarded" + _tag(cfg),
+                 "an entry of the recovered checkpoint can be skipped (not sent to its shard): its stamp never reaches the shard's clock and "
+                 "its value is missing after the restart", ars.where(sends[0][1]["ln"]), detail="send on every path of the loop body")
     # handle side: the message is sent unconditionally
     h = prog.one("production::replicated_shard_actor::ReplicatedShardHandle::apply_recovered_state")
     hs = [(b, t) for b, t in h.calls() if is_callee(t, r"UnboundedSender::<.*>::send$")]
